@@ -179,6 +179,17 @@ func (fr *Frame) intercept(st *State, fn *ssa.Function, pkg string, args []Val, 
 			ex.trusted["maps.Copy(dst, src): dst receives every entry of src and keeps its other entries"] = true
 			return Val{}, true
 		}
+	case "bufio.NewWriter", "bufio.NewReader", "bufio.NewWriterSize", "bufio.NewReaderSize", "bufio.NewScanner", "time.NewTicker", "time.NewTimer":
+		// library constructors return a new, non-nil object
+		ex.trusted["library constructors (bufio.NewWriter/NewReader/NewScanner, time.NewTicker/NewTimer) return a new non-nil object"] = true
+		return Val{T: fr.newRef(st, "lib."+name)}, true
+	case "os.OpenFile", "os.Open", "os.Create":
+		// (file, err): a nil error comes with a non-nil file
+		ex.trusted["os.OpenFile/Open/Create: either an error or a non-nil *os.File"] = true
+		f := ex.ctx.Fresh("osfile", SRef)
+		e := ex.ctx.Fresh("oserr", SIfc)
+		ex.assume(st, Implies(Eq(e, V("iface_nil", SIfc)), Neq(f, TNull)))
+		return Val{Tup: []Val{{T: f}, {T: e}}}, true
 	case "sync/atomic.Value.Load":
 		// atomic.Value: all values ever stored have one concrete type (Store panics otherwise), so what another
 		// thread may have stored since is an arbitrary value of the type of the value last seen here
